@@ -157,4 +157,104 @@ theorem moveField_cross_invalid {s s' : State} {h g : Nat} {n : Name} {hd : Hand
           simp only [invalidate, List.getElem?_modify, hdh, hh1, Option.map_eq_map, Option.map_some, if_true, hc,
             Bool.false_eq_true, if_false, Bool.not_false]
 
+theorem look_snoc {t : Table} {k k' : Key} {v : Nat} (hk : k ∉ keys t) :
+    look (t ++ [(k, v)]) k' = if k' = k then some v else look t k' := by
+  induction t with
+  | nil =>
+    simp only [List.nil_append, look]
+    by_cases h : k = k'
+    · subst h; simp
+    · have h' : ¬ k' = k := fun e => h e.symm
+      simp [h, h']
+  | cons e t ih =>
+    obtain ⟨k0, v0⟩ := e
+    simp only [keys_cons, List.mem_cons, not_or] at hk
+    simp only [List.cons_append, look]
+    by_cases h0 : k0 = k'
+    · subst h0
+      have : ¬ k0 = k := fun e => hk.1 e.symm
+      simp [this]
+    · simp only [h0, if_false]
+      exact ih hk.2
+
+theorem look_erase {t : Table} {k k' : Key} : look (erase t k) k' = if k' = k then none else look t k' := by
+  induction t with
+  | nil => simp [erase, look]
+  | cons e t ih =>
+    obtain ⟨k0, v0⟩ := e
+    unfold erase at ih ⊢
+    simp only [List.filter_cons]
+    by_cases h0 : k0 = k
+    · subst h0
+      simp only [ne_eq, not_true_eq_false, decide_false, Bool.false_eq_true, if_false, ih, look]
+      by_cases h1 : k' = k0
+      · simp [h1]
+      · have : ¬ k0 = k' := fun e => h1 e.symm
+        simp [h1, this]
+    · simp only [ne_eq, h0, not_false_eq_true, decide_true, if_true, look, ih]
+      by_cases h1 : k0 = k'
+      · subst h1; simp [h0]
+      · simp [h1]
+
+/-- a new column holds the given content; every other column of every frame keeps its type and data -/
+theorem addField_refines {v : Variant} {s s' : State} (hI : InvCore s) {g : Nat} {n : Name} {c : Content} {a : Nat}
+    (h : addField v s g n c = .ok a s') :
+    ∀ g' n', frameH5 s' g' n' = if (g', n') = (g, n) then some c else frameH5 s g' n' := by
+  unfold addField at h
+  split at h
+  · cases h
+  split at h
+  · cases h
+  next _ hl =>
+  simp only [Res.ok.injEq] at h
+  obtain ⟨_, rfl⟩ := h
+  intro g' n'
+  simp only [frameH5, look_snoc hl]
+  split
+  · simp
+  · next hne =>
+    cases hlk : look s.links (g', n') with
+    | none => rfl
+    | some o =>
+      simp only [Option.bind_some]
+      have := hI.oidLt _ _ (look_mem hlk)
+      rw [List.getElem?_append_left this]
+
+/-- a deleted column is gone; every other column of every frame keeps its type and data -/
+theorem delItem_refines {s s' : State} {g : Nat} {n : Name} (h : delItem s g n = .ok () s') :
+    ∀ g' n', frameH5 s' g' n' = if (g', n') = (g, n) then none else frameH5 s g' n' := by
+  unfold delItem at h
+  split at h
+  · cases h
+  split at h
+  · cases h
+  simp only [Res.ok.injEq, true_and] at h
+  subst h
+  intro g' n'
+  simp only [frameH5, look_erase]
+  split <;> rfl
+
+theorem dropField_refines {s s' : State} {g : Nat} {n : Name} (h : dropField s g n = .ok () s') :
+    ∀ g' n', frameH5 s' g' n' = if (g', n') = (g, n) then none else frameH5 s g' n' := by
+  unfold dropField at h
+  split at h
+  · cases h
+  simp only at h
+  split at h
+  · cases h
+  simp only [Res.ok.injEq, true_and] at h
+  subst h
+  intro g' n'
+  simp only [frameH5, look_erase]
+  split <;> rfl
+
+/-- `dataframe.copy` / `df[n] = f` / `df.add(f)` store the type and data of the source field -/
+theorem copyField_refines {v : Variant} {s s' : State} (hI : InvCore s) {h g : Nat} {n : Name} {a : Nat}
+    (hc : copyField v s h g n = .ok a s') :
+    ∃ c, fieldContent s h = .ok c ∧ ∀ g' n', frameH5 s' g' n' = if (g', n') = (g, n) then some c else frameH5 s g' n' := by
+  unfold copyField at hc
+  split at hc
+  · cases hc
+  · next c hfc => exact ⟨c, hfc, addField_refines hI hc⟩
+
 end Exetera.Catalogue
